@@ -11,7 +11,7 @@ def run(chk):
     fl = dict(vlib.flags(O=1), OPS_MODE="embed")
     plan = [("toy79", "honest", 200 if q else 5000), ("toy31723", "mixed", 250 if q else 6000), ("toy7", "honest", 100 if q else 2000)]
     for i, (curve, kind, n) in enumerate(plan):
-        vlib.toy_traces(chk, curve, kind, n, fl, "schedule", seed_off=10 + i)
+        vlib.toy_traces(chk, curve, kind, n, fl, "schedule", seed_off=10 + i, cfgname="TraceSync")
     chk.finish(
         rule="for every run the traced Merlin log of both roles (every append with label and payload, every challenge, forks, RNG construction) is "
              "validated by TLC against the operation list the specification derives for that statement and proof shape (P1Ops/P2Ops, VerifyP1/P2): "
